@@ -18,14 +18,15 @@ CkRawInserts(es, acc, tab) == IF es = <<>> THEN acc
                               ELSE CkRawInserts(Tail(es), QInsert(acc, LowerS(es[1][1], tab), es[1][2]), tab)
 CkTypedText(es, tab) == CkText(CkRawInserts(es, <<>>, tab))
 
-Field(op) == CASE op[1] \in {"with_package_type"} -> "type"
-               [] op[1] \in {"with_namespace", "without_namespace"} -> "ns"
-               [] op[1] \in {"with_name"} -> "name"
+\* "edit_*" ops are direct writes to the public fields builder.package_type / builder.parts.*
+Field(op) == CASE op[1] \in {"with_package_type", "edit_type"} -> "type"
+               [] op[1] \in {"with_namespace", "without_namespace", "edit_ns"} -> "ns"
+               [] op[1] \in {"with_name", "edit_name"} -> "name"
                [] op[1] \in {"with_version", "without_version"} -> "ver"
                [] op[1] \in {"with_subpath", "without_subpath"} -> "sub"
                [] OTHER -> "quals"
 \* the qualifier key an op touches ("*" = all)
-QKeyOf(op) == CASE op[1] \in {"with_qualifier", "without_qualifier"} -> ALowerS(op[2])
+QKeyOf(op) == CASE op[1] \in {"with_qualifier", "without_qualifier", "edit_qual"} -> ALowerS(op[2])
                 [] op[1] \in {"with_typed_repo", "without_typed_repo"} -> REPO
                 [] op[1] \in {"try_with_typed_checksum", "without_typed_checksum"} -> CHECKSUM
                 [] OTHER -> <<42>>
@@ -33,8 +34,11 @@ QKeyOf(op) == CASE op[1] \in {"with_qualifier", "without_qualifier"} -> ALowerS(
 Ok(b) == [ok |-> TRUE, b |-> b]
 SetP(b, f, x) == Ok([b EXCEPT !.parts[f] = x])
 Apply(b, op, tab) ==
-  CASE op[1] = "with_package_type" -> Ok([b EXCEPT !.st = op[2]])
-    [] op[1] = "with_namespace" -> SetP(b, "ns", op[2])
+  CASE op[1] \in {"with_package_type", "edit_type"} -> Ok([b EXCEPT !.st = op[2]])
+    [] op[1] \in {"with_namespace", "edit_ns"} -> SetP(b, "ns", op[2])
+    [] op[1] = "edit_name" -> SetP(b, "name", op[2])
+    \* parts.qualifiers.insert(k, v) with the Result ignored: an invalid key changes nothing
+    [] op[1] = "edit_qual" -> IF ValidKey(op[2]) THEN SetP(b, "quals", QInsert(b.parts.quals, ALowerS(op[2]), op[3])) ELSE Ok(b)
     [] op[1] = "without_namespace" -> SetP(b, "ns", <<>>)
     [] op[1] = "with_name" -> SetP(b, "name", op[2])
     [] op[1] = "with_version" -> SetP(b, "ver", op[2])
@@ -62,8 +66,10 @@ FnSet(f, k, v) == [x \in DOMAIN f \cup {k} |-> IF x = k THEN v ELSE f[x]]
 FnDel(f, k) == [x \in DOMAIN f \ {k} |-> f[x]]
 EmptyFn == [x \in {} |-> <<>>]
 Track(last, op, tab) ==
-  CASE op[1] = "with_package_type" -> [last EXCEPT !.type = op[2]]
-    [] op[1] = "with_namespace" -> [last EXCEPT !.ns = op[2]]
+  CASE op[1] \in {"with_package_type", "edit_type"} -> [last EXCEPT !.type = op[2]]
+    [] op[1] \in {"with_namespace", "edit_ns"} -> [last EXCEPT !.ns = op[2]]
+    [] op[1] = "edit_name" -> [last EXCEPT !.name = op[2]]
+    [] op[1] = "edit_qual" -> IF ValidKey(op[2]) THEN [last EXCEPT !.q = FnSet(last.q, ALowerS(op[2]), op[3])] ELSE last
     [] op[1] = "without_namespace" -> [last EXCEPT !.ns = <<>>]
     [] op[1] = "with_name" -> [last EXCEPT !.name = op[2]]
     [] op[1] = "with_version" -> [last EXCEPT !.ver = op[2]]
